@@ -339,7 +339,7 @@ func compileOnce(texts map[string]string, order []string, fc compile.FeaturesChe
 			r.parseErr = err
 			return
 		}
-		mods[t.Root.Argument().String()] = t
+		mods[name] = t // (the key under which the caller supplies the tree: the module's name, or name@date for a second revision)
 	}
 	var ms schema.ModelSet
 	underScheduler(&r, func() {
